@@ -52,7 +52,7 @@ def body(c):
     # automatic memmapping leg: thresholds just below / at / above nbytes, no memmapping at all
     pcases = []
     for dt in (["float64", "big_int32", "S3", "record", "object"] if c.quick else dtypes):
-        for lay in (["C", "F", "memmap", "transposed", "reversed", "memmap_T", "memmap_rev", "memmap_strided"] if not c.quick else ["C", "memmap", "transposed", "memmap_T", "memmap_rev"]):
+        for lay in (["C", "F", "memmap", "transposed", "reversed", "memmap_T", "memmap_rev", "memmap_strided", "memmap_view"] if not c.quick else ["C", "memmap", "transposed", "memmap_T", "memmap_rev", "memmap_view"]):
             for delta in (-1, 0, None):
                 if dt == "object" and lay.startswith("memmap"): continue        # a memory map of object pointers is meaningless in another process
                 pcases.append({"dtype": dt, "shape": "bigmat" if lay in ("F", "transposed", "memmap_T", "memmap_strided") else "big", "layout": lay, "delta": delta})
